@@ -15,6 +15,7 @@ EXPLANATION = (
     '(R4 also: new_non_debugable declares size_of::<T>() of the value type; R8, shared with C07.R7) channels charge the declared length undiminished. '
     '(R8 also: queues are charged and un-charged with Message::length, shared with C07.R3.) '
     "(R8 also, shared with C07.R2: the queue admission compares with Message::length.) "
+    '(R9) Message::from_raw_parts stores the header and body it was given unchanged; R10) in #[derive(MessageBody)] every turn of a field loop feeds every token stream the loop feeds (no field is left out of byte_len). '
     "Decides these necessary conditions only; not value equality / drop counts over operation sequences.")
 ASSUMPTIONS = ["TypeId::of::<T>() identifies T", "Box::into_raw/from_raw round-trip"]
 
